@@ -6,6 +6,7 @@ ordered list of the accesses `renderwb` makes; `renderwobT` for unbatched).
 import DTML.Batch
 import DTML.GenCode
 import DTML.Gen
+import DTML.GenEnsure
 import DTML.Props.C11
 set_option linter.unusedVariables false
 namespace DTML.Props.C12
@@ -569,5 +570,64 @@ theorem unbatched_pulls_all_once (n : Nat) :
     simp [this, hasLen]
 
 example : ((LazySt.init (some 3)).run (renderwobT ⟨3, true⟩)).log = [0, 1, 2] := by decide
+
+/-! ### Which objects are wrapped, and what the wrapper starts with
+
+`GenEnsure.supportsGen` / `ensureGen` / `sfiInitGen` are regenerated on every run from
+`DT_Util.sequence_supports_subscription` (the `hasattr` tests in their source order, with their `and` / `or` / `not`
+and the attribute names as written; the `hasattr` facts themselves asked of real objects of every kind),
+`sequence_ensure_subscription` (`return obj` / `return SequenceFromIter(iter(obj))`) and the class attributes and
+`__init__` of `SequenceFromIter`.  They compute the model's classification `SeqKind.listLike`, `Batch.ensure`, and
+`LazySt.init` - the state every pull theorem above starts from. -/
+
+/-- `sequence_supports_subscription(obj)`, for every kind of object -/
+theorem gen_supports_subscription_is_model (k : SeqKind) : GenEnsure.supportsGen k = k.listLike := by
+  cases k <;> rfl
+
+/-- `SequenceFromIter(it)`: nothing pulled, nothing logged, not finished -/
+theorem gen_sfi_init_is_model (src : Option Nat) : GenEnsure.sfiInitGen src = LazySt.init src := rfl
+
+/-- `sequence_ensure_subscription(obj)`: list-like objects as they are, everything else through a fresh wrapper -/
+theorem gen_ensure_is_model (k : SeqKind) (src : Option Nat) : GenEnsure.ensureGen k src = ensure k src := by
+  cases k <;> rfl
+
+/-- exactly the objects that are not list-like are wrapped -/
+theorem gen_ensure_wraps_iff (k : SeqKind) (src : Option Nat) :
+    (∃ l, GenEnsure.ensureGen k src = .wrapped l) ↔ k.listLike = false := by
+  rw [gen_ensure_is_model]
+  unfold ensure
+  cases h : k.listLike <;> simp
+
+/-- **A freshly wrapped iterator has pulled nothing**: whatever the source wraps starts as `LazySt.init` of its
+iterator - empty `data`, empty pull log, `finished` unset -, which satisfies the invariant of the wrapper -/
+theorem gen_fresh_wrapper_pulled_nothing (k : SeqKind) (src : Option Nat) (l : LazySt)
+    (h : GenEnsure.ensureGen k src = .wrapped l) :
+    l = LazySt.init src ∧ l.pulled = 0 ∧ l.log = [] ∧ l.finished = false ∧ Inv l := by
+  rw [gen_ensure_is_model] at h
+  unfold ensure at h
+  cases hk : k.listLike
+  · simp only [hk, Bool.false_eq_true, if_false, Ensured.wrapped.injEq] at h
+    subst h
+    simp [Inv, LazySt.init]
+  · simp [hk] at h
+
+/-- the first subscription of what the source wrapped is the model's `get` on the initial state (the translated
+`__getitem__` on the translated `__init__`) -/
+theorem gen_getitem_on_fresh_wrapper (k : SeqKind) (src : Option Nat) (l : LazySt)
+    (h : GenEnsure.ensureGen k src = .wrapped l) (idx : Int) :
+    GenCode.sfiGetitemGen (idx.toNat + 2) l idx = (LazySt.init src).get idx := by
+  rw [(gen_fresh_wrapper_pulled_nothing k src l h).1, gen_getitem_is_model]
+
+/-- so whatever accesses follow the wrapping, the iterator of the wrapped object is pulled strictly in order, each
+element at most once, never beyond what it yields (`pulls_sequential`, from the state the source really starts in) -/
+theorem gen_wrapped_pulls_sequential (k : SeqKind) (src : Option Nat) (l : LazySt)
+    (h : GenEnsure.ensureGen k src = .wrapped l) (t : List Acc) :
+    (l.run t).log = List.range (l.run t).pulled ∧ (∀ n, src = some n → (l.run t).pulled ≤ n) := by
+  rw [(gen_fresh_wrapper_pulled_nothing k src l h).1]
+  exact pulls_sequential src t
+
+example : GenEnsure.ensureGen .generator (some 3) = .wrapped (LazySt.init (some 3)) := by decide
+example : GenEnsure.ensureGen .dict (some 2) = .wrapped (LazySt.init (some 2)) := by decide
+example : GenEnsure.ensureGen .tuple (some 2) = .asIs := by decide
 
 end DTML.Props.C12
